@@ -9,7 +9,15 @@ import random
 
 
 def key(obj):
+    """the whole object: distinguishes reachable states during exploration, whatever fields there are"""
     return repr(sorted((k, repr(v)) for k, v in vars(obj).items()))
+
+
+def policy_state(obj):
+    """the attributes the package had when the contracts were written (pyvc/fields_baseline.json): what "the policy state
+    is unchanged" is judged on -- an unread debug counter is not policy state; a field that matters shows in the victims"""
+    from pyvc import fields
+    return repr(sorted((k, repr(v)) for k, v in vars(obj).items() if k in fields.baseline()))
 
 
 def ref_lru_access(order, i):
@@ -60,10 +68,10 @@ def explore(kind, n, cap, viol):
         for pol, ref, hist in frontier:
             states += 1
             # observations in this state
-            before = key(pol)
+            before = policy_state(pol)
             v = pol.get_next_to_replace()
             r = pol.get_repr()
-            if key(pol) != before:
+            if policy_state(pol) != before:
                 viol.append({"key": "C10:%s:%d:inspection-changes-state" % (kind, n), "what": "get_next_to_replace/get_repr change the policy state after accesses %s" % (list(hist),), "kind": kind, "n": n, "history": list(hist)})
                 return states
             if kind == "lru":
@@ -77,8 +85,10 @@ def explore(kind, n, cap, viol):
                 p2 = copy.deepcopy(pol)
                 p2.access(i)
                 k1 = key(p2)
-                p2.access(i)
-                if key(p2) != k1:
+                s1 = policy_state(p2)
+                p3 = copy.deepcopy(p2)
+                p3.access(i)
+                if policy_state(p3) != s1 or p3.get_next_to_replace() != p2.get_next_to_replace() or list(p3.get_repr()) != list(p2.get_repr()):
                     viol.append({"key": "C10:%s:%d:second-access" % (kind, n), "what": "%s(%d) after accesses %s: accessing block %d a second time in a row changes the state" % (kind.upper(), n, list(hist) + [i], i), "kind": kind, "n": n, "history": list(hist) + [i, i]})
                     return states
                 r2 = ref_lru_access(ref, i) if kind == "lru" else ref_plru_access(ref, n, i)
